@@ -652,11 +652,40 @@ func execC14(t *testing.T, p *sim.Program, c *sim.Ctx) {
 			k := 1 + c14Mod(op.Int(2), lim-1)
 			ma := append(append([]byte{}, a.bytes[:len(a.bytes)-k]...), b.bytes[len(b.bytes)-k:]...)
 			mb := append(append([]byte{}, b.bytes[:len(b.bytes)-k]...), a.bytes[len(a.bytes)-k:]...)
+			if bytes.Equal(ma, b.bytes) || bytes.Equal(mb, a.bytes) {
+				// the swapped tails reach back to where the two containers start to differ: each slot now simply holds
+				// the OTHER container, whole and untouched - not an alteration (and it may well hold the same key)
+				c.Hit("probe:swap-exchanged-whole-containers")
+				continue
+			}
 			c.Abs("swap", a.key.kind, a.spec.ck, a.auth, b.key.kind, b.spec.ck, b.auth, sim.LenClass(k, 16))
 			c.Hit("fault:misdirected-write")
-			e.deliver(i, op.K, "tail-swapped", a, a.key, ma, a.spec.pw, a.spec.rcpt, op.Int(3), c14JAltered, a)
+			// a slot whose protected values all come from the OTHER container is that container with an altered
+			// unprotected head: it is judged as such (it may legitimately decode, to the other key)
+			sameProt := func(rec *c14Rec, m []byte) bool {
+				was, now := c14ProtectedValues(rec, rec.bytes), c14ProtectedValues(rec, m)
+				if was == nil || now == nil || len(was) != len(now) {
+					return false
+				}
+				for k := range was {
+					if !bytes.Equal(was[k], now[k]) {
+						return false
+					}
+				}
+				return true
+			}
+			oa, ob := a, b
+			if a.spec.ck == b.spec.ck && a.auth && b.auth {
+				if sameProt(b, ma) {
+					oa = b
+				}
+				if sameProt(a, mb) {
+					ob = a
+				}
+			}
+			e.deliver(i, op.K, "tail-swapped", oa, oa.key, ma, oa.spec.pw, oa.spec.rcpt, op.Int(3), c14JAltered, oa)
 			if !c.Failed() {
-				e.deliver(i, op.K, "tail-swapped", b, b.key, mb, b.spec.pw, b.spec.rcpt, op.Int(3), c14JAltered, b)
+				e.deliver(i, op.K, "tail-swapped", ob, ob.key, mb, ob.spec.pw, ob.spec.rcpt, op.Int(3), c14JAltered, ob)
 			}
 		case "stale":
 			v := e.slots[c14Mod(op.Int(0), 4)]
